@@ -29,6 +29,7 @@ const (
 	opProbe               // emits {"polluted":true} if a global or prototype pollution is visible
 	opThrow               // throw "boom";
 	opLoop                // while (true) {}
+	opSetArrElem          // _.bindings["arr"][0]["q"] = 9;   an object inside an array
 )
 
 func stmt(op int, i int) string {
@@ -65,6 +66,8 @@ func stmt(op int, i int) string {
 		return `throw "boom";`
 	case opLoop:
 		return `while (true) {}`
+	case opSetArrElem:
+		return `_.bindings["arr"][0]["q"] = 9;`
 	}
 	return ""
 }
@@ -134,7 +137,7 @@ func (s *script) outcome(bsHasDeepMap bool, propsHasNested bool) (emits []int, o
 			return emits, false
 		case opKillOut:
 			outAlive = false
-		case opSetDeep:
+		case opSetDeep, opSetArrElem:
 			if bindingsReplaced || !bsHasDeepMap {
 				return emits, false // TypeError: cannot set property of undefined
 			}
